@@ -387,6 +387,7 @@ func buildPlug6(a req6abs, ownDUID []byte, r *rand.Rand) (dhcpv6.DHCPv6, dhcpv6.
 	if r.Intn(2) == 0 {
 		codes = append(codes, dhcpv6.OptionDomainSearchList)
 	}
+	r.Shuffle(len(codes), func(i, j int) { codes[i], codes[j] = codes[j], codes[i] }) // a request list is a set: any order
 	if len(codes) > 0 || r.Intn(2) == 0 {
 		m.AddOption(dhcpv6.OptRequestedOption(codes...))
 	}
@@ -629,6 +630,15 @@ func subsets(xs []int) [][]int {
 	return out
 }
 
+// what the OTHER protocol section configures when a plugin is listed in both
+var dualArgs = map[string]map[int][]string{
+	"dns":           {4: {"9.9.9.9"}, 6: {"2001:db8::53"}},
+	"searchdomains": {4: {"other4.example"}, 6: {"other6.example"}},
+	"nbp":           {4: {"tftp://10.0.0.9/other4"}, 6: {"http://[2001:db8::9]/other6"}},
+	"server_id":     {4: {"10.9.9.9"}, 6: {"LL", "00:11:22:33:44:55"}},
+	"sleep":         {4: {"1ms"}, 6: {"1ms"}},
+}
+
 // one configuration, in this process
 func runPluginOne(t *Trace, pl string, proto int, args []string, reqs string, seed int64) {
 	p := builtin[pl]
@@ -646,10 +656,19 @@ func runPluginOne(t *Trace, pl string, proto int, args []string, reqs string, se
 		err error
 	)
 	pan, _ := callWatch(func() {
+		// "dual": the plugin is configured in BOTH protocol sections of one server; LoadPlugins sets up all of server6
+		// first, then all of server4 - each instance must keep its own configuration
+		other := dualArgs[pl]
+		if reqs == "table-dual" && other != nil && proto == 4 && p.Setup6 != nil {
+			p.Setup6(other[6]...)
+		}
 		if proto == 4 {
 			h4, err = p.Setup4(args...)
 		} else {
 			h6, err = p.Setup6(args...)
+		}
+		if reqs == "table-dual" && other != nil && proto == 6 && p.Setup4 != nil {
+			p.Setup4(other[4]...)
 		}
 	})
 	res := "ok"
@@ -711,11 +730,15 @@ func runPluginOne(t *Trace, pl string, proto int, args []string, reqs string, se
 		}
 		switch pl {
 		case "server_id":
-			for _, si := range []string{"absent", "zero", "own", "other"} {
-				for _, o54 := range []string{"absent", "zero", "own", "other"} {
-					for _, mt := range []int{1, 3} {
-						for _, ph := range []bool{false, true} {
-							observe4(t, pl, args, h4, req4abs{prlhas: ph, prl: []int{6}, siaddr: si, opt54: o54, mt: mt, hlen: 6}, pres[r.Intn(len(pres))], own, r, cfg)
+			// the whole product several times over in ONE process: what the plugin decides must not depend on how many
+			// requests (in particular: how many for other servers) it has seen before
+			for pass := 0; pass < 4; pass++ {
+				for _, si := range []string{"absent", "zero", "own", "other"} {
+					for _, o54 := range []string{"absent", "zero", "own", "other"} {
+						for _, mt := range []int{1, 3} {
+							for _, ph := range []bool{false, true} {
+								observe4(t, pl, args, h4, req4abs{prlhas: ph, prl: []int{6}, siaddr: si, opt54: o54, mt: mt, hlen: 6}, pres[r.Intn(len(pres))], own, r, cfg)
+							}
 						}
 					}
 				}
@@ -756,6 +779,15 @@ func runPluginOne(t *Trace, pl string, proto int, args []string, reqs string, se
 	}
 	oros := subsets([]int{23, 59, 60})
 	if pl == "server_id" {
+		for pass := 0; pass < 2; pass++ {
+			for typ := 1; typ <= 11; typ++ {
+				for _, sid := range []string{"none", "same", "otherkind", "longer", "differs"} {
+					for depth := 0; depth <= 2; depth++ {
+						observe6(t, pl, args, h6, req6abs{typ: typ, oro: oros[r.Intn(len(oros))], sid: sid, depth: depth}, ownDUID, r, cfg)
+					}
+				}
+			}
+		}
 		for typ := 1; typ <= 11; typ++ {
 			for _, sid := range []string{"none", "same", "otherkind", "longer", "differs"} {
 				for depth := 0; depth <= 2; depth++ {
@@ -1054,6 +1086,9 @@ func runPlugins(args []string) error {
 	if *mode == "table" {
 		for _, c := range tableConfigs() {
 			jobs = append(jobs, job{c.pl, c.proto, c.args, "table"})
+			if dualArgs[c.pl] != nil {
+				jobs = append(jobs, job{c.pl, c.proto, c.args, "table-dual"})
+			}
 		}
 	} else if *mode == "sidchain" {
 		for _, c := range tableConfigs() {
